@@ -61,6 +61,8 @@ def reroot(t, frm, to):
     return rebuild(t, f)
 
 
+CHUNK_SOURCES = set()      # def paths of iterator sources whose length is an opaque atom G(arg); registered by ./check
+
 ITER_ADAPTERS = ('::rev', 'IntoIterator::into_iter', '::map', '::enumerate', '::iter', '::into_iter', '::by_ref', '::fuse', '::cloned', '::copied', '::peekable')
 
 
@@ -103,7 +105,7 @@ class IterModel:
         """Affine-able term for the number of items the iterator value `t` still yields."""
         if t[0] == 'call':
             name = t[1]
-            if name.endswith('bit_array_to_chunks_truncated'):
+            if name in CHUNK_SOURCES:
                 return ('G', t[2][0])
             if name.endswith('::step_by') or name.endswith('::filter') or name.endswith('::take') or name.endswith('::skip') or name.endswith('::zip') or name.endswith('::chain'):
                 raise Unresolved('iterator adapter %s changes the length' % name)
